@@ -21,6 +21,8 @@ class OriginError(Exception):
 
 
 def bootstrap():
+    if hasattr(sys, "set_int_max_str_digits"):
+        sys.set_int_max_str_digits(0)  # canonical forms print exact rationals whose denominators can exceed 4300 digits
     for p in (SHIMS, REPO_SRC):
         if p in sys.path:
             sys.path.remove(p)
